@@ -216,6 +216,11 @@ def check_c10(A: Analysis) -> Dict[str, Any]:
         o = c.order
         if (l.agent_id, l.is_buy, l.kind, l.price, l.ttl, l.order_time) != (o.agent_id, o.is_buy, o.kind, o.price, o.ttl, o.placed_at):
             raise Violation("C10.cancel_record_fields", f"CancelLog of order {o.order_id}/m{o.market_id} has wrong fields")
+        if id(o) in accepted_volume:
+            resting = accepted_volume[id(o)] - sum(x.volume for j, x in d_execs if j < i and x.market_id == o.market_id and o.order_id in (x.buy_order_id, x.sell_order_id))
+            if l.volume != resting:
+                raise Violation("C10.cancel_record_fields", f"CancelLog of order {o.order_id}/m{o.market_id} reports volume {l.volume}; accepted {accepted_volume[id(o)]}, "
+                                                            f"filled before the cancel {accepted_volume[id(o)] - resting}: {resting} was resting")
         if l.cancel_time != items[i][1]["times"][0]:
             raise Violation("C10.cancel_record_fields", f"CancelLog of order {o.order_id}/m{o.market_id} says cancel_time {l.cancel_time}, the clock read "
                                                         f"{items[i][1]['times'][0]} when the cancel was accepted")
